@@ -34,6 +34,7 @@ EXPLANATION = (
 
 DRIVER = 'drivers/c02_tasks.cpp'
 WITNESS = 'witness/c02_tasksets.cpp'
+WITNESS_TBB = 'witness/c02_tbb.cpp'
 TASKSYS = 'rkcommon/tasking/detail/TaskSys.cpp'
 SCHEDULER = 'rkcommon/tasking/detail/enkiTS/TaskScheduler.cpp'
 CONFIGS = ['TBB', 'OMP', 'INTERNAL', 'DEBUG']
@@ -45,11 +46,11 @@ class World:
     def __init__(self, ctx, std='c++11'):
         jobs = [dict(unit=DRIVER, config=c, std=std) for c in CONFIGS]
         jobs += [dict(unit=TASKSYS, config='INTERNAL', std=std), dict(unit=SCHEDULER, config='INTERNAL', std=std),
-                 dict(unit=WITNESS, config='INTERNAL', std=std)]
+                 dict(unit=WITNESS, config='INTERNAL', std=std), dict(unit=WITNESS_TBB, config='TBB', std=std)]
         tus = ctx.front.parse_many(jobs)
         self.std = std
         self.drivers = dict(zip(CONFIGS, tus[:4]))
-        self.tasksys, self.scheduler, self.witness = tus[4:7]
+        self.tasksys, self.scheduler, self.witness, self.witness_tbb = tus[4:8]
         self.tag = '' if std == 'c++11' else ' ' + std
         self.submit = {}     # q -> exit counts
         self.joinfn = {}     # q -> bool (joins on every path)
@@ -237,6 +238,40 @@ def const_value(tu, e):
     return None
 
 
+def group_is_waited(tu, f, e):
+    """tbb::task_group::run is a start primitive: it needs a wait() on the same group -- either a member of the enclosing
+    object that one of its methods waits on (the owner's join is R-C02-4), or a wait on every path in the same function"""
+    m = e.get('member')
+    if m is not None and f.get('recid'):
+        for f2 in tu.functions.values():
+            if f2.get('recid') != f['recid'] or f2['dep'] or tu.cfg(f2) is None:
+                continue
+            for b, i, x in tu.cfg(f2).stmts():
+                if x.get('kind') == 'CXXMemberCallExpr' and X.RX_TBB_WAIT.match(tu.sd(x).get('q', '')):
+                    sd, obj, args = tu.call_parts(x)
+                    if obj is not None and member_of_this(tu, obj) == m:
+                        return True
+        return False
+    ap = X.access_path(tu, e['obj']) if e.get('obj') is not None else None
+    if ap is None:
+        return False
+    g = tu.cfg(f)
+
+    def transfer(blk, idx, el, st):
+        if el[0] != 'S':
+            return [st]
+        if el[1] == e['node']['id']:
+            return ['ran']
+        x = tu.node(el[1])
+        if st == 'ran' and x is not None and x.get('kind') == 'CXXMemberCallExpr' and X.RX_TBB_WAIT.match(tu.sd(x).get('q', '')):
+            sd, obj, args = tu.call_parts(x)
+            if obj is not None and X.access_path(tu, obj) == ap:
+                return ['waited']
+        return [st]
+    exits, _r = X.exit_states(g, ['init'], transfer)
+    return bool(exits) and 'ran' not in exits
+
+
 def check_handoff(ctx, W, roots):
     """roots: list of (tu, fn, param index); follows forwarding callees"""
     ha = W.ha
@@ -271,6 +306,15 @@ def check_handoff(ctx, W, roots):
         for kind, text, loc in h.problems:
             bad = True
             ctx.violation(R1, inst, text, loc, key='%s|%s|%s|%s' % (R1, file, name, kind))
+        for e in h.events:
+            if e['kind'] == 'tbb-run' and not group_is_waited(tu, f, e):
+                bad = True
+                ctx.violation(R1, inst, 'the closure is handed to tbb::task_group::run on `%s` (%s) but nothing ever waits on that group: '
+                              'run() only spawns the task, it is executed when a worker happens to steal it or when somebody calls '
+                              'wait() on the group -- with a single thread / busy workers the task never runs. A fire-and-forget '
+                              'hand-off has to use task_arena::enqueue (or the group must be waited on, as AsyncTaskImpl does)'
+                              % (tu.show(e['obj']) if e.get('obj') is not None else '?', tu.loc(e['node'])), tu.loc(e['node']),
+                              key='%s|%s|%s|run-without-wait' % (R1, file, name))
         if not h.counts and not h.undecided:
             ctx.undecided(R1, inst, 'no path reaches the end of the function', tu.fn_loc(f))
             continue
@@ -528,6 +572,125 @@ def roles(ctx, W, o):
     return res, flag, gets[0], fins[0]
 
 
+def result_uses(tu, fn, res):
+    """classify every access to the result member in fn: ('read'|'result-moved-out'|'result-modified'|'undecided', text, node)"""
+    out = []
+    decl = X.fn_decl(tu, fn)
+    name = fn['q'].split('::')[-1]
+    for x in tu.walk(decl):
+        if x.get('kind') != 'MemberExpr' or tu.sd(x).get('d') != res or member_of_this(tu, x) != res:
+            continue
+        cur, moved = x, False
+        verdict = None
+        for _ in range(14):
+            p = tu.par(cur)
+            if p is None:
+                break
+            k = p.get('kind')
+            if k in ('ParenExpr', 'ExprWithCleanups', 'MaterializeTemporaryExpr', 'CXXBindTemporaryExpr'):
+                cur = p
+                continue
+            if k == 'ImplicitCastExpr':
+                ck = p.get('castKind')
+                if ck == 'LValueToRValue':
+                    verdict = ('read', '', x)
+                    break
+                if ck == 'NoOp' and 'const' in (tu.sd(p).get('ct', '') or p.get('type', {}).get('qualType', '')):
+                    verdict = ('read', '', x)
+                    break
+                cur = p
+                continue
+            if k == 'CallExpr' and tu.sd(p).get('q') in X.FORWARDERS:
+                moved = True
+                cur = p
+                continue
+            if k in X.CASTS_EXPLICIT:
+                t = p.get('type', {}).get('qualType', '')
+                if t.rstrip().endswith('&&'):
+                    moved = True
+                elif 'const' not in t and t.rstrip().endswith('&'):
+                    pass
+                cur = p
+                continue
+            if k in X.CONSTRUCTS or k in ('CallExpr', 'CXXMemberCallExpr', 'CXXOperatorCallExpr'):
+                sd, obj, args = X.call_parts(tu, p)
+                q = sd.get('q', '')
+                fty = sd.get('fty', '')
+                if obj is not None and obj.get('id') == cur.get('id') and k != 'CallExpr':
+                    if q.split('::')[-1] == 'operator=' or k == 'CXXOperatorCallExpr' and q.split('::')[-1] in ('operator+=', 'operator-='):
+                        verdict = ('result-modified', '%s() assigns to the result member at %s: a later get() no longer returns the value '
+                                   'the task function returned' % (name, tu.loc(p)), x)
+                    elif fty.rstrip().endswith('const') or ') const' in fty:
+                        verdict = ('read', '', x)
+                    else:
+                        verdict = ('undecided', '%s() calls the non-const member %s on the result member' % (name, q), x)
+                    break
+                ai = [i for i, a in enumerate(args) if a.get('id') == cur.get('id')]
+                ptypes = param_types(fty)
+                pt = ptypes[ai[0]] if ai and ai[0] < len(ptypes) else ''
+                if pt.rstrip().endswith('&&') and moved:
+                    verdict = ('result-moved-out', '%s() moves the stored result out of the object (%s receives `%s` as %s at %s): the '
+                               'first call steals it, every later get() -- finished() still being true -- returns a moved-from value'
+                               % (name, q.split('::')[-1] or 'a constructor', tu.show(x), pt.strip(), tu.loc(p)), x)
+                elif 'const' in pt or (pt and not pt.rstrip().endswith('&')):
+                    verdict = ('read', '', x)
+                else:
+                    verdict = ('undecided', '%s() passes the result member to %s as `%s`' % (name, q or '?', pt.strip() or '?'), x)
+                break
+            if k in ('BinaryOperator', 'CompoundAssignOperator') and (p.get('opcode', '').endswith('=') and p.get('opcode') not in ('==', '!=', '<=', '>=')):
+                if tu.kids(p)[0].get('id') == cur.get('id'):
+                    verdict = ('result-modified', '%s() assigns to the result member at %s: a later get() no longer returns the value '
+                               'the task function returned' % (name, tu.loc(p)), x)
+                else:
+                    verdict = ('read', '', x)
+                break
+            if k == 'UnaryOperator' and p.get('opcode') in ('++', '--'):
+                verdict = ('result-modified', '%s() modifies the result member at %s' % (name, tu.loc(p)), x)
+                break
+            if k == 'ReturnStmt':
+                rt = fn.get('fty', '').split('(')[0]
+                if moved and rt.rstrip().endswith('&&'):
+                    verdict = ('undecided', '%s() returns an rvalue reference to the result member' % name, x)
+                elif rt.rstrip().endswith('&') and 'const' not in rt:
+                    verdict = ('undecided', '%s() returns a non-const reference to the result member' % name, x)
+                else:
+                    verdict = ('read', '', x)
+                break
+            if k == 'MemberExpr':       # access to a part of the result
+                cur = p
+                continue
+            if k in ('BinaryOperator', 'ConditionalOperator', 'CXXDependentScopeMemberExpr'):
+                verdict = ('read', '', x)
+                break
+            verdict = ('undecided', '%s() uses the result member in a construct that is not recognised as a read (%s)' % (name, k), x)
+            break
+        out.append(verdict or ('undecided', '%s(): use of the result member not classified' % name, x))
+    return out
+
+
+def param_types(fty):
+    """parameter type list of a function type as written by clang: 'void (A, B &&) noexcept' -> ['A', 'B &&']"""
+    i = fty.find('(')
+    if i < 0:
+        return []
+    depth, cur, out = 0, '', []
+    for ch in fty[i + 1:]:
+        if ch in '(<[':
+            depth += 1
+        elif ch in ')>]':
+            if ch == ')' and depth == 0:
+                break
+            depth -= 1
+        if ch == ',' and depth == 0:
+            out.append(cur)
+            cur = ''
+        else:
+            cur += ch
+    if cur.strip():
+        out.append(cur)
+    return out
+
+
 def check_result_protocol(ctx, W, o, joiner):
     tu, rec = o.tu, o.rec
     rn = rec_name(rec)
@@ -686,6 +849,27 @@ def check_result_protocol(ctx, W, o, joiner):
                     ctx.violation(R3, minst, 'the completion flag `%s` is loaded with memory_order_%s at %s: seeing true does not '
                                   'make the stored result visible' % (flagn, ORDER.get(a[3], a[3]), tu.loc(x)), tu.loc(x),
                                   key='%s|%s|%s::%s|flag-load-order' % (R3, tu.fn_file(m), rn, m['q'].split('::')[-1]))
+    # ---- outside the closure the result member is only read (get() can be called any number of times)
+    for m in sorted([f for f in tu.functions.values() if f.get('recid') == rec['id'] and not f['dep'] and tu.cfg(f) is not None
+                     and not f.get('ctor') and not f.get('dtor')], key=lambda f: f['q']):
+        uses = result_uses(tu, m, res)
+        if not uses:
+            continue
+        n += 1
+        mname = m['q'].split('::')[-1]
+        minst = inst0 + ': %s() uses `%s`' % (mname, resn)
+        worst = None
+        for kind, text, x in uses:
+            if kind == 'read':
+                continue
+            if kind == 'undecided':
+                ctx.undecided(R3, minst, text, tu.loc(x))
+                worst = worst or 'undecided'
+            else:
+                worst = 'violation'
+                ctx.violation(R3, minst, text, tu.loc(x), key='%s|%s|%s::%s|%s' % (R3, tu.fn_file(m), rn, mname, kind))
+        if worst is None:
+            ctx.ok(R3, minst, 'read-only (%d access(es): copied / bound to const / scalar read)' % len(uses), tu.fn_loc(m))
     # ---- get(): the result is read only after flag==true or after a wait
     n += 1
     ginst = inst0 + ': get()'
@@ -771,6 +955,14 @@ class Joiner:
                 sd, obj, args = tu.call_parts(x)
                 q = sd.get('q', '')
                 m = member_of_this(tu, obj) if obj is not None else None
+                callee = tu.callee_fn(x)
+                if obj is not None and X.is_this_expr(tu, obj) and callee is not None and callee.get('recid') == fn.get('recid') \
+                        and tu.cfg(callee) is not None and callee['id'] != fn['id'] and ('impl', id(tu), callee['id']) not in self.busy:
+                    self.busy.add(key)
+                    sub_ok = self.impl_join(o, callee)          # a helper of the same class that joins everything
+                    self.busy.discard(key)
+                    if sub_ok:
+                        return set(range(len(need)))
                 for i, e in enumerate(need):
                     if e['kind'] == 'tbb-run' and X.RX_TBB_WAIT.match(q) and m == e['member']:
                         got.add(i)
@@ -1389,6 +1581,170 @@ def check_task_deletes(ctx, W, tu, handled, verdicts=None):
     return n
 
 
+
+# ---- (iv) a task becomes reachable by a completion-guarded delete only after it has been handed to the scheduler
+STORE_METHODS = ('push_back', 'emplace_back', 'push_front', 'emplace_front', 'push', 'emplace', 'insert')
+
+
+def is_shared_root(tu, root):
+    if root == 'this':
+        return True
+    d = tu.node(root)
+    if d is None or d.get('kind') != 'VarDecl':
+        return False
+    return tu.enclosing_fn(d) is None or d.get('storageClass') == 'static'
+
+
+def loop_range_path(tu, vd):
+    """container access path if vd is the loop variable of a range-for"""
+    if vd is None or vd.get('kind') != 'VarDecl' or not tu.kids(vd):
+        return None
+    c = core(tu, tu.kids(vd)[-1])
+    it = None
+    if c is not None and c.get('kind') == 'CXXOperatorCallExpr' and tu.sd(c).get('q', '').endswith('operator*'):
+        sd, obj, args = X.call_parts(tu, c)
+        it = decl_ref(tu, obj) if obj is not None else None
+    elif c is not None and c.get('kind') == 'UnaryOperator' and c.get('opcode') == '*':
+        it = decl_ref(tu, tu.kids(c)[0])
+    bd = tu.node(it) if it else None
+    if bd is None or not tu.kids(bd):
+        return None
+    c = core(tu, tu.kids(bd)[-1])
+    if c is None or c.get('kind') != 'CXXMemberCallExpr' or tu.sd(c).get('q', '').split('::')[-1] not in ('begin', 'cbegin'):
+        if c is not None and c.get('kind') == 'DeclRefExpr':       # arrays / pointers: not a container of tasks we track
+            return None
+        return None
+    sd, obj, args = tu.call_parts(c)
+    ap = X.access_path(tu, obj) if obj is not None else None
+    if ap is not None and len(ap) == 1:
+        rd = tu.node(ap[0])
+        if rd is not None and rd.get('name', '').startswith('__range') and tu.kids(rd):
+            return X.access_path(tu, tu.kids(rd)[-1])
+    return ap
+
+
+def check_publication_order(ctx, W, tu, verdicts=None):
+    n = 0
+    for f in sorted(tu.functions.values(), key=lambda f: f['q']):
+        if f['dep'] or tu.cfg(f) is None:
+            continue
+        g = tu.cfg(f)
+        decl = X.fn_decl(tu, f)
+        cands = [(p['id'], p['name'], p['ct']) for p in f['params'] if '*' in p['ct']]
+        for x in tu.walk(decl):
+            if x.get('kind') == 'VarDecl' and tu.kids(x) and core(tu, tu.kids(x)[-1]) is not None and \
+                    core(tu, tu.kids(x)[-1]).get('kind') == 'CXXNewExpr':
+                cands.append((x['id'], x.get('name'), tu.sd(core(tu, tu.kids(x)[-1])).get('ct', '')))
+        for pid, pname, pct in cands:
+            if not any(r is not None and X.derived_from(tu, r, X.ENKI_COMPLETABLE) for r in X.record_of_type(tu, pct)):
+                continue
+            ev = {}
+            for b, i, x in g.stmts():
+                k = x.get('kind')
+                if k == 'CallExpr':
+                    sd, obj, args = tu.call_parts(x)
+                    if sd.get('q', '') in W.submit and any(decl_ref(tu, a) == pid for a in args):
+                        ev[x['id']] = ('submit', x)
+                elif k in ('CXXMemberCallExpr', 'CXXOperatorCallExpr'):
+                    sd, obj, args = X.call_parts(tu, x)
+                    name = sd.get('q', '').split('::')[-1]
+                    if obj is None or not sd.get('rec', '').startswith('std::'):
+                        continue
+                    dst = X.access_path(tu, obj)
+                    if name in STORE_METHODS and any(decl_ref(tu, a) == pid for a in args):
+                        ev[x['id']] = ('store', x, dst)
+                        continue
+                    srcs = []
+                    if name in ('insert', 'assign', 'swap', 'operator=', 'merge', 'splice'):
+                        for a in args:
+                            for y in tu.walk(a):
+                                if y.get('kind') == 'CXXMemberCallExpr' and tu.sd(y).get('q', '').split('::')[-1] in ('begin', 'end', 'cbegin', 'cend'):
+                                    sd2, obj2, a2 = tu.call_parts(y)
+                                    ap2 = X.access_path(tu, obj2) if obj2 is not None else None
+                                    if ap2 is not None and ap2 != dst:
+                                        srcs.append(ap2)
+                            ap3 = X.access_path(tu, a)
+                            if ap3 is not None and name in ('swap', 'operator=', 'merge', 'splice') and ap3 != dst:
+                                srcs.append(ap3)
+                    if srcs:
+                        ev[x['id']] = ('flow', x, dst, srcs, name == 'swap')
+                elif k == 'CXXDeleteExpr' and tu.kids(x):
+                    v = decl_ref(tu, tu.kids(x)[0])
+                    rp = loop_range_path(tu, tu.node(v)) if v else None
+                    if rp is not None:
+                        ev[x['id']] = ('sweep', x, rp)
+            stores = [e for e in ev.values() if e[0] == 'store']
+            if not stores:
+                continue
+            n += 1
+            name = short_name(f['q'])
+            inst = '[%s] %s: task `%s`' % (tu.config, f['q'].replace('rkcommon::tasking::', ''), pname) + W.tag
+            has_submit = any(e[0] == 'submit' for e in ev.values())
+            problems = []
+
+            def transfer(blk, idx, e, st):
+                if e[0] != 'S' or e[1] not in ev:
+                    return [st]
+                sub, holders = st
+                x = ev[e[1]]
+                if x[0] == 'submit':
+                    return [(True, holders)]
+                newh = set(holders)
+                gained = []
+                if x[0] == 'store' and x[2] is not None:
+                    newh.add(x[2])
+                    gained.append(x[2])
+                if x[0] == 'flow':
+                    dst, srcs, sw = x[2], x[3], x[4]
+                    if dst is not None and any(sp in holders for sp in srcs):
+                        newh.add(dst)
+                        gained.append(dst)
+                    if sw and dst in holders:
+                        for sp in srcs:
+                            newh.add(sp)
+                            gained.append(sp)
+                if x[0] == 'sweep' and not sub and x[2] in holders:
+                    problems.append(('swept-before-scheduled', 'the completion-guarded delete at %s sweeps a container that already holds '
+                                     'the task `%s`, which has not been handed to the scheduler yet on this path: its running count is '
+                                     'still 0, so it looks complete and is deleted before it ever runs' % (tu.loc(x[1]), pname), tu.loc(x[1])))
+                if not sub:
+                    for ap in gained:
+                        if is_shared_root(tu, ap[0]):
+                            problems.append(('published-before-scheduled', 'the task `%s` is put into the shared container `%s` at %s on a '
+                                             'path where it has not been handed to the scheduler yet: until AddTaskSetToPipe increments it, '
+                                             'its running count is 0, so another thread sweeping that container sees GetIsComplete() == true '
+                                             'and deletes the task before it runs (use-after-free in the scheduler, closure never executed)'
+                                             % (pname, tu.show(tu.call_parts(x[1])[1]) if x[1].get('kind') == 'CXXMemberCallExpr' else '?',
+                                                tu.loc(x[1])), tu.loc(x[1])))
+                return [(sub, frozenset(newh))]
+            reaches_shared = []
+
+            def probe(blk, idx, e, st):       # same flow, ignoring submits: does the task reach a shared container at all?
+                out = transfer(blk, idx, e, (False, st[1]))
+                return [(False, out[0][1])]
+            if has_submit:
+                X.exit_states(g, [(False, frozenset())], transfer)
+            else:
+                exits, _r = X.exit_states(g, [(False, frozenset())], probe)
+                reaches_shared = [1 for sub, hs in exits if any(is_shared_root(tu, ap[0]) for ap in hs)]
+            if verdicts is not None:
+                verdicts.append((name, bool(problems) if has_submit else None))
+                continue
+            if not has_submit:
+                if reaches_shared:
+                    ctx.undecided(R6, inst, 'the task is stored into a shared container but this function does not itself hand it to the '
+                                  'scheduler: cannot see whether it was scheduled before it became reachable by the reaper', tu.fn_loc(f))
+                else:
+                    n -= 1
+                continue
+            if problems:
+                for kind, text, loc in sorted(set(problems)):
+                    ctx.violation(R6, inst, text, loc, key='%s|%s|%s|%s' % (R6, tu.fn_file(f), name, kind))
+            else:
+                ctx.ok(R6, inst, 'handed to the scheduler before it is stored where a completion-guarded delete can reach it', tu.fn_loc(f))
+    return n
+
+
 def check_wait_drains(ctx, W):
     """TaskScheduler::WaitforTask(p) returns, for p != null, only after p's running count was read as zero"""
     tu = W.scheduler
@@ -1430,11 +1786,19 @@ def check_wait_drains(ctx, W):
 EXPECT_OVERRIDES = {'rkverif::c02w::SelfDelete::ExecuteRange': True, 'rkverif::c02w::ViaMethod::ExecuteRange': True,
                     'rkverif::c02w::ViaHelper::ExecuteRange': True, 'rkverif::c02w::KeepsItself::ExecuteRange': False}
 EXPECT_DELETES = {'rkverif::c02w::reapGuarded': False, 'rkverif::c02w::reapAfterWait': False,
-                  'rkverif::c02w::reapUnguarded': True, 'rkverif::c02w::neverScheduled': False}
+                  'rkverif::c02w::reapUnguarded': True, 'rkverif::c02w::neverScheduled': False,
+                  'rkverif::c02w::sweepThenSchedule': False}   # guarded, hence fine for (iii); (iv) flags its order
 EXPECT_ORDER = {('rkverif::c02w::StartsTooEarly', 'result'): True, ('rkverif::c02w::StartsTooEarly', 'done'): False,
                 ('rkverif::c02w::StartsLast', 'result'): False, ('rkverif::c02w::StartsLast', 'done'): False,
-                ('rkverif::c02w::NeverWaits', 'result'): False, ('rkverif::c02w::NeverWaits', 'done'): False}
-EXPECT_DTOR = {'rkverif::c02w::StartsTooEarly': False, 'rkverif::c02w::StartsLast': False, 'rkverif::c02w::NeverWaits': True}
+                ('rkverif::c02w::NeverWaits', 'result'): False, ('rkverif::c02w::NeverWaits', 'done'): False,
+                ('rkverif::c02w::MovesOut', 'result'): False, ('rkverif::c02w::MovesOut', 'done'): False,
+                ('rkverif::c02w::Copies', 'result'): False, ('rkverif::c02w::Copies', 'done'): False}
+EXPECT_PUBLISH = {'rkverif::c02w::publishThenSchedule': True, 'rkverif::c02w::scheduleThenPublish': False,
+                  'rkverif::c02w::sweepThenSchedule': True}
+EXPECT_RESULT_USE = {'rkverif::c02w::MovesOut': 'result-moved-out', 'rkverif::c02w::Copies': None}
+EXPECT_RUN = {'rkverif::c02w::detachedRun': False, 'rkverif::c02w::runAndWait': True, 'rkverif::c02w::runMaybeWait': False}
+EXPECT_DTOR = {'rkverif::c02w::StartsTooEarly': False, 'rkverif::c02w::StartsLast': False, 'rkverif::c02w::NeverWaits': True,
+               'rkverif::c02w::MovesOut': False, 'rkverif::c02w::Copies': False}
 
 
 def check_witness(ctx, W, active_unused=None):
@@ -1464,11 +1828,38 @@ def check_witness(ctx, W, active_unused=None):
     got = {a: c for a, b, c in v}
     if got != EXPECT_DTOR:
         bad.append('wait-before-release detector: expected %s, got %s' % (EXPECT_DTOR, got))
+    v = []
+    check_publication_order(ctx, W, tu, verdicts=v)
+    got = {k: c for k, c in v if k.startswith('rkverif::c02w::')}
+    if got != EXPECT_PUBLISH:
+        bad.append('scheduled-before-published detector: expected %s, got %s' % (EXPECT_PUBLISH, got))
+    got = {}
+    for r in tu.records.values():
+        if r['q'] in EXPECT_RESULT_USE:
+            fld = [x['id'] for x in r['fields'] if x['name'] == 'result']
+            gets = method_of(tu, r, 'get')
+            if fld and gets:
+                kinds = sorted({k for k, t, x in result_uses(tu, gets[0], fld[0]) if k != 'read'})
+                got[r['q']] = kinds[0] if kinds else None
+    if got != EXPECT_RESULT_USE:
+        bad.append('result-read-only detector: expected %s, got %s' % (EXPECT_RESULT_USE, got))
+    tb = W.witness_tbb
+    got = {}
+    for f in tb.functions.values():
+        nm = short_name(f['q'])
+        if not f['dep'] and nm in EXPECT_RUN and tb.cfg(f) is not None:
+            h = W.ha.analyse(tb, f, 0)
+            runs = [e for e in h.events if e['kind'] == 'tbb-run']
+            got[nm] = bool(runs) and all(group_is_waited(tb, f, e) for e in runs)
+    if got != EXPECT_RUN:
+        bad.append('task_group run-needs-wait detector: expected %s, got %s' % (EXPECT_RUN, got))
     for b in bad:
         ctx.broken('witness/c02_tasksets.cpp%s: %s' % (W.tag, b))
     if not bad:
         ctx.ok(R6, 'witness/c02_tasksets.cpp' + W.tag, 'positive and negative examples classified as expected: %d overrides, %d deletes, '
-               '%d member-order cases, %d destructors' % (len(EXPECT_OVERRIDES), len(EXPECT_DELETES), len(EXPECT_ORDER), len(EXPECT_DTOR)),
+               '%d member-order cases, %d destructors, %d publication orders, %d result uses, %d task_group runs'
+               % (len(EXPECT_OVERRIDES), len(EXPECT_DELETES), len(EXPECT_ORDER), len(EXPECT_DTOR), len(EXPECT_PUBLISH),
+                  len(EXPECT_RESULT_USE), len(EXPECT_RUN)),
                'witness/c02_tasksets.cpp', nontrivial=False)
 
 
@@ -1504,6 +1895,7 @@ def run_world(ctx, W):
     n6, handled = check_overrides(ctx, W, tui, active)
     for tu in (tui, W.tasksys, W.scheduler):
         check_task_deletes(ctx, W, tu, handled if tu is tui else set())
+        check_publication_order(ctx, W, tu)
     check_witness(ctx, W)
     return dict(n1=n1 + n_sub, names=names, n2=n2, n3=n3, n4=n4, n5=n5, n6=n6, nsites=nsites)
 
